@@ -118,7 +118,7 @@ theorem filter_or_eq_length (p : Nat → Bool) (n x : Nat) (hx : x < n) :
     · have hlt : x < n := by omega
       rw [ih hlt]
       have hn : (n == x) = false := by simp; omega
-      cases hp : p x <;> cases hpn : p n <;> simp [hp, hpn, hn] <;> omega
+      cases hp : p x <;> cases hpn : p n <;> simp [hpn, hn] <;> omega
 
 theorem Table.countOnes_put (t : Table) (bit : Nat) (hbit : bit < t.size)
     (hlen : t.blocks.length = nblocks t.size) :
@@ -312,4 +312,12 @@ theorem Reach.updateHashes {sizes : List Nat} {g : G} {H : List Nat} {u : Nat}
     refine ⟨u', ?_, ?_⟩
     · split at hu <;> omega
     · simpa [G.updateHashes, List.reverse_cons, List.append_assoc] using r'
+theorem countOnes_eq_refCount {H : List Nat} (t : Table) (hb : ∀ b, t.get b = refBit H t.size b) :
+    t.countOnes = refCount H t.size := by
+  unfold Table.countOnes Table.ones refCount refOnes
+  congr 1
+  apply List.filter_congr
+  intro b _
+  exact hb b
+
 end NG
